@@ -284,6 +284,28 @@ theorem vcJwt_accept {sup : List String} {E : Env} {issuer : String} {didOf : St
     exact hk (by simpa using hne)
   · cases h
 
+theorem authzV1_accept {sup : List String} {E : Env} {issuer : String} {ip : Bool} {didOf : String → String} {j : Jws}
+    {vs : List Verified} (h : authzV1 sup true E issuer ip didOf j = .accept vs) :
+    parseJWT sup E j = .accept vs ∧ ip = true ∧ ∀ s, j.sigs = [s] → didOf s.kid = issuer := by
+  unfold authzV1 at h
+  split at h; · cases h
+  next vs' hp =>
+  split at h; · cases h
+  next hip =>
+  split at h
+  · next s hs =>
+    split at h; · cases h
+    next hk =>
+    injection h with h
+    subst h
+    refine ⟨hp, by simpa using hip, ?_⟩
+    intro s' hs'
+    rw [hs] at hs'
+    injection hs' with hs' _
+    subst hs'
+    simpa using hk
+  · cases h
+
 theorem ldProof_accept {L : LdEnv} {key : Key} {canon : Bool} {parts : Nat} {dec : Bool} {vs : List Verified}
     (h : ldProofVerify L key canon parts dec = .accept vs) :
     ∃ alg, vs = [{ key := key, src := .caller, alg := alg, idx := 0, overSigningInput := true }] ∧
